@@ -3,7 +3,7 @@ C04 — line-protocol driver: a `C04.St` driven by the operation sequence the ha
 real `UsersDictionary`; after every operation the harness compares the outcome and (on `dump`)
 the user records and both lookup caches.
 -/
-import LimnoriaModel.C04.Model
+import LimnoriaModel.C04.Plugin
 import LimnoriaModel.Driver.Core
 namespace C04
 open Py Wire C03
@@ -50,6 +50,34 @@ def doOp (st : St) (o : Option Op) : St × String :=
   | some o => let r := step st o; (r.1, encOut r.2)
   | none => (st, "bad-op")
 
+def encReply : Reply → String
+  | .success => "success"
+  | .incorrectAuth => "incorrectAuth"
+  | .notRegistered => "notRegistered"
+  | .noUser => "noUser"
+  | .secureError => "secureError"
+  | .nameTaken => "nameTaken"
+  | .hostmaskTaken => "hostmaskTaken"
+  | .invalid => "invalid"
+  | .invalidMask => "invalidMask"
+  | .noSuchHostmask => "noSuchHostmask"
+  | .usage => "usage"
+  | .generic => "generic"
+  | .iam n => "iam\t" ++ enc n
+  | .stranger => "stranger"
+
+/-- the driver instantiates the password test with equality of the secrets (the harness uses the
+bot's real salted hashes) -/
+def pwEq (stored attempt : Str) : Bool := stored == attempt
+
+def doCmd (pst : PSt) (c : Option Cmd) : PSt × String :=
+  match c with
+  | some c => let r := pstep pwEq pst c; (r.1, encReply r.2)
+  | none => (pst, "bad-op")
+
+def dumpLog (pst : PSt) : String :=
+  joinOr "," (sortStrs (pst.log.map (fun l => toString l.uid ++ ":" ++ toString l.t ++ ":" ++ enc l.host)).eraseDups)
+
 def dstep (st : St) : List String → St × String
   | ["reset", t] =>
     match t.toInt? with
@@ -79,5 +107,27 @@ def dstep (st : St) : List String → St × String
   | ["isUserHostmask", s] => (st, match dec s with | some s => encB (isUserHostmask s) | none => "bad-op")
   | _ => (st, "bad-op")
 
-def handler : Driver.Handler := { σ := St, init := {}, step := dstep }
+def pdstep (pst : PSt) : List String → PSt × String
+  | ["reset", t] =>
+    match t.toInt? with
+    | some t => ({ st := { db := { Db.initial with timeout := t } } }, "ok")   -- shipped default capabilities
+    | none => (pst, "bad-op")
+  | ["p_register", p, n, pw] => doCmd pst (do pure (Cmd.register (← dec p) (← dec n) (← dec pw)))
+  | ["p_identify", p, n, pw] => doCmd pst (do pure (Cmd.identify (← dec p) (← dec n) (← dec pw)))
+  | ["p_unidentify", p] => doCmd pst (do pure (Cmd.unidentify (← dec p)))
+  | ["p_hostadd", p, n, m, pw] => doCmd pst (do pure (Cmd.hostAdd (← dec p) (← decOpt n) (← dec m) (← dec pw)))
+  | ["p_hostrm", p, n, m, pw] => doCmd pst (do pure (Cmd.hostRemove (← dec p) (← decOpt n) (← dec m) (← dec pw)))
+  | ["p_secure", p, pw, b] => doCmd pst (do pure (Cmd.setSecure (← dec p) (← dec pw) (← decBool b)))
+  | ["p_whoami", p] => doCmd pst (do pure (Cmd.whoami (← dec p)))
+  | ["p_tick", dt] => doCmd pst (do pure (Cmd.tick (← dt.toNat?)))
+  | ["p_log"] => (pst, dumpLog pst)
+  | ["p_dump"] =>
+    -- records only: on the live bot every incoming message triggers lookups of the sender that
+    -- are not part of the command (checkIgnored, command capabilities, reply options); they
+    -- only touch the caches, whose transparency is proved and tested on the dictionary stream
+    (pst, "U=" ++ joinOr ";" (sortStrs (pst.st.db.users.map (dumpUser pst.st.db.timeout pst.st.now))) ++
+      "|N=" ++ toString pst.st.nextId)
+  | fs => let r := dstep pst.st fs; ({ pst with st := r.1 }, r.2)
+
+def handler : Driver.Handler := { σ := PSt, init := {}, step := pdstep }
 end C04
